@@ -465,3 +465,16 @@ def tsolve(scope, templates: list[str], b: dict | None = None):
         return None
 
     return go(0, dict(b or {}), [])
+
+
+def cached_factory(ix):
+    """The lru_cache'd TensorMethod factory of compile/_porcelain.py (found by its decorator, not its name)."""
+    import re as _re
+
+    from ..common import AnalysisError
+
+    mod = "tensora.compile._porcelain"
+    for q, f in ix.funcs.items():
+        if f.module == mod and q == f"{mod}.{f.name}" and any(_re.match(r"(functools\.)?(lru_cache|cache)\b", ast.unparse(d)) for d in f.node.decorator_list):
+            return f
+    raise AnalysisError("anchor vanished: no lru_cache'd TensorMethod factory in compile/_porcelain.py")
